@@ -4,7 +4,8 @@ Open Scope N_scope.
 
 Inductive case :=
 | CInvoke (dl : bool) (s : list ev) (r : result) (tr : list op) (leftover : N)
-| CRetry (ds : list dial) (r : cres) (waits : list Z).
+| CRetry (ds : list dial) (r : cres) (waits : list Z)
+| CAgain (s : list ev) (conn : N).   (* after a call with this script, the next call's first write went to connection conn *)
 
 Definition result_eqb (a b : result) : bool :=
   match a, b with
@@ -32,6 +33,7 @@ Definition ok (c : case) : bool :=
       result_eqb r' r && ops_eqb tr' tr && (N.of_nat (length s') =? nleft)
   | CRetry ds r waits =>
       let '(r', w') := run_retry ds in cres_eqb r' r && zs_eqb w' waits
+  | CAgain s conn => fst (run_held s) =? conn
   end.
 
 Fixpoint mism (i : N) (cs : list case) : list N :=
